@@ -9,6 +9,8 @@ import (
 	"context"
 	"errors"
 	"fmt"
+	"github.com/sdcio/data-server/pkg/utils"
+	"sort"
 	"strings"
 	"sync"
 	"testing"
@@ -46,6 +48,9 @@ type vrScenario struct {
 }
 
 var vrTraceMu sync.Mutex
+
+// vrSent collects what the target is handed by the run in progress: "U <xpath>=<value>" / "D <xpath>" (under vrTraceMu)
+var vrSent []string
 
 func (s vrScenario) String() string {
 	return fmt.Sprintf("content=%s,dryRun=%v,replaceIntent=%v,targetSetFails=%v,cacheModifyFails=%q", s.content, s.dryRun, s.replace, s.sbiFails, s.modifyFail)
@@ -105,10 +110,20 @@ func vrRunLive(t *testing.T, sc vrScenario) (tracep *[]string, rsp *sdcpb.Transa
 	sbi := mocktarget.NewMockTarget(controller)
 	sets := 0
 	sbi.EXPECT().Set(gomock.Any(), gomock.Any()).AnyTimes().DoAndReturn(
-		func(_ context.Context, _ target.TargetSource) (*sdcpb.SetDataResponse, error) {
+		func(sctx context.Context, src target.TargetSource) (*sdcpb.SetDataResponse, error) {
 			vrTraceMu.Lock()
 			defer vrTraceMu.Unlock()
 			sets++
+			if dels, e := src.ToProtoDeletes(sctx); e == nil {
+				for _, dp := range dels {
+					vrSent = append(vrSent, "D "+utils.ToXPath(dp, false))
+				}
+			}
+			if upds, e := src.ToProtoUpdates(sctx, true); e == nil {
+				for _, u := range upds {
+					vrSent = append(vrSent, "U "+utils.ToXPath(u.GetPath(), false)+"="+utils.TypedValueToString(u.GetValue()))
+				}
+			}
 			fails := sc.sbiFails || (sc.sbiFailsFrom > 0 && sets >= sc.sbiFailsFrom)
 			trace = append(trace, fmt.Sprintf("Set(ok=%v)", !fails))
 			if fails {
@@ -391,6 +406,41 @@ func TestVerifReplayTransactionSet(t *testing.T) {
 					fmt.Printf("REPLAY-FAIL fn=%s clause=%s input=%s,existingPriority=%d,newPriority=%d err=%v effects=%v why=a %s transaction has effects\n", fn, clause, sc, pr[0], pr[1], err, trace, kind)
 				}
 			}
+		}
+	}
+	// C03: the updates and deletes a dry run reports are the ones the same request sends when executed for real
+	for _, repl := range []bool{false, true} {
+		n++
+		sc := vrScenario{content: "valid", replace: repl, dryRun: true}
+		_, rspDry, errDry, _ := vrRun(t, sc)
+		vrTraceMu.Lock()
+		vrSent = nil
+		vrTraceMu.Unlock()
+		sc.dryRun = false
+		_, _, errReal, dReal := vrRun(t, sc)
+		vrTraceMu.Lock()
+		sent := append([]string{}, vrSent...)
+		vrTraceMu.Unlock()
+		if errDry != nil || errReal != nil {
+			fmt.Printf("REPLAY-FAIL fn=%s clause=panic input=%s why=unexpected errors %v / %v\n", fnTS, sc, errDry, errReal)
+			continue
+		}
+		dReal.transactionManager.Confirm("trans1")
+		var reported []string
+		for _, dp := range rspDry.GetDelete() {
+			reported = append(reported, "D "+utils.ToXPath(dp, false))
+		}
+		for _, u := range rspDry.GetUpdate() {
+			reported = append(reported, "U "+utils.ToXPath(u.GetPath(), false)+"="+utils.TypedValueToString(u.GetValue()))
+		}
+		sort.Strings(reported)
+		sort.Strings(sent)
+		if strings.Join(reported, "; ") != strings.Join(sent, "; ") {
+			clause := "dry_run_predicts_the_real_run"
+			if repl {
+				clause += ".known" // recorded finding: what the replace intent sends is not part of any response
+			}
+			fmt.Printf("REPLAY-FAIL fn=%s clause=%s input=%s why=the dry run reports [%s], the real run of the same request sends [%s]\n", fnTS, clause, sc, strings.Join(reported, "; "), strings.Join(sent, "; "))
 		}
 	}
 	// C03: a request that is refused as a whole (the same intent named twice) has no effect, with or without a replace intent
